@@ -43,6 +43,7 @@ func concFiles() map[string]string {
 		"assignstr.tw":       "{{ v = \"s\" }}{{ w = 2.5 }}str {{ v }}",
 		"readv.tw":           "read {{ v }}",
 		"badarg.tw":          "@use(\"~main\")@insert(\"title\", \"T\")@insert(\"body\")@each(i in items)@component(\"~card\", {t: [i, who], g: [gid, who.nofn()]})@end@end",
+		"shapes.tw":          "{{ [1, [2, [n]]] }}|{{ {a: {b: {c: n}}}.a.b.c }}|{{ \"abcdef\".at(n) }}|{{ \"x\".repeat(n) }}|{{ [1, 2, 3, 4].slice(n).len() }}|{{ 5.decimal(\".\", n) }}|{{ true.then(n, 0) }}|{{ false.then(0, s) }}|{{ \"a,b\".split(\",\").join(s) }}|{{ [s].contains(\"k\") ? 1 : 2 }}|{{ \"kz\".contains(s) }}|{{ (1 > 0) ? n : 0 }}|{{ -n }}|{{ !b }}|{{ [n, 0][0] }}|{{ {k: n, j: s}.k }}|{{ \"s\" + s }}|{{ 1 + n * 2 }}|{{ 1.5 * n.float() }}|{{ [[s, \"x\"], [n]][0][0] }}|{{ {list: [n, {deep: s}]}.list[1].deep }}|{{ \"%d\".len() + n }}|{{ [\"p\", \"q\", \"r\", \"s\"][n] }}|{{ \"abc\".truncate(n, s) }}|{{ [3, 1, 2].contains(n) }}|{{ n.str() + \"!\" }}|{{ b ? \"yes\" : \"no\" }}|{{ (b ? [1] : [1, 2]).len() }}|{{ [1, 2].append(n).len() }}|{{ [0].prepend(s)[0] }}|{{ n == 1 ? \"one\" : n == 3 ? \"three\" : \"many\" }}|@if(\"k\" == s)Y@elseif([3].contains(n))E@else N@end|@each(x in [1, n])<{{ x }}>@end|@for(i = 0; i < n; i++)({{ i }})@end|@each(x in [])@else{{ s }}@end|{{ v = [n, s] }}{{ v }}|{{ w = {k: n} }}{{ w.k }}",
 		"floatdec.tw":        "@for(f = price; f > 1.0; f--)[{{ f }}]@end {{ price-- }} {{ price++ }} {{ price }} @each(p in [price, price - 1.0]){{ p-- }}{{ p.pause2() }},@end",
 		"assignlayout.tw":    "@use(\"~main\")@insert(\"title\", \"T\")@insert(\"body\"){{ v = true }}{{ v }}@end",
 	}
@@ -145,6 +146,11 @@ func concOps() []concOp {
 		}},
 		// postfix operators on floats
 		{"String(floatdec)", false, str("floatdec")},
+		// the data buried in literals, calls on literal receivers, conditions and loop headers of every shape
+		{"String(shapes)", false, func(tpl *textwire.Template, data map[string]any, abs string) string {
+			g, _ := data["gid"].(int)
+			return str("shapes")(tpl, map[string]any{"n": g % 4, "s": []string{"k", "z", "kz", ""}[g%4], "b": g%2 == 0}, abs)
+		}},
 		// inline pages of several KiB, different for every goroutine, one of them failing at its end
 		{"EvaluateString(big page)", false, func(tpl *textwire.Template, data map[string]any, abs string) string {
 			who := fmt.Sprint(data["who"])
